@@ -344,9 +344,18 @@ class Db:
             return 0
         if entry == "insert_meas":
             return db.insert(tf.Point(time=good_t, measurement=good_m), measurement=bad)
+        if entry == "insert_meas_stored":
+            # a Point object handed out by the database (MemoryStorage: the stored object itself) inserted again
+            got = db.get(tf.TimeQuery().noop())
+            return db.insert(got if got is not None else tf.Point(time=good_t, measurement=good_m), measurement=bad)
         q = th.query(tf, a["q"], self.cache)
         static = entry.endswith("_static")
         kw = {name: value} if static else {name: (lambda old, v=value: v)}
+        if entry == "update_callable_inplace":
+            def inplace(old, v=value):
+                old.update(v)
+                return old
+            kw = {name: inplace}
         companion = a.get("with", "none")
         cname = companion.replace("_callable", "")
         if companion != "none" and cname != name:
